@@ -1,11 +1,14 @@
 (** C15 -- the in-memory relay delivers each asked-for message exactly once per ask, to askers only; the
     header codec reads back what it was built with.  Statements only; proofs in Proofs/Relay*.v; the model
-    is Model/Relay.v (tie T2: Corr/C15.v). *)
-From SL Require Import Lib.Base Model.Relay Proofs.RelayCodec.
+    is Model/Relay.v (tie T2: Corr/C15.v).  All history theorems quantify over ARBITRARY finite histories
+    [h : list op] (any connections, ids, TTLs, clock values; not even monotonicity of the clock is needed). *)
+From SL Require Import Lib.Base Model.Relay Proofs.RelayCodec Proofs.RelayInv Proofs.RelayRetention
+  Proofs.RelayDelivery Proofs.RelaySpec.
 Local Open Scope N_scope.
 
-(** Header codec round trip and 36-byte layout: id and flags read back as built, the TTL modulo 2^16. *)
-Theorem hdr_roundtrip : forall id ttl flags payload,
+(** Header codec round trip and 36-byte layout: id and flags read back as built, the TTL modulo 2^16 (equal to the TTL it was built with when that is within the 16-bit wire range); payload follows the header. *)
+Theorem hdr_roundtrip :
+  forall id ttl flags payload,
   length id = ID_SIZE -> ttl < 2 ^ 32 -> flags < 2 ^ 16 ->
   let m := allocate_message id ttl flags payload in
   length m = (36 + length payload)%nat /\
@@ -17,7 +20,8 @@ Theorem hdr_roundtrip : forall id ttl flags payload,
   skipn 36 m = payload /\
   (bytes_ok id = true -> bytes_ok payload = true -> bytes_ok m = true).
 Proof. exact hdr_roundtrip_proof. Qed.
-Check hdr_roundtrip : forall id ttl flags payload,
+Check hdr_roundtrip :
+  forall id ttl flags payload,
   length id = ID_SIZE -> ttl < 2 ^ 32 -> flags < 2 ^ 16 ->
   let m := allocate_message id ttl flags payload in
   length m = (36 + length payload)%nat /\
@@ -29,3 +33,168 @@ Check hdr_roundtrip : forall id ttl flags payload,
   skipn 36 m = payload /\
   (bytes_ok id = true -> bytes_ok payload = true -> bytes_ok m = true).
 Print Assumptions hdr_roundtrip.
+
+(** AskMsg::allocate builds exactly a header (36 bytes, flags 0): the frame length the relay classifies as an ask. *)
+Theorem ask_frame :
+  forall id ttl,
+  length id = ID_SIZE -> ttl < 2 ^ 32 ->
+  let a := ask_allocate id ttl in
+  length a = 36%nat /\ hdr_id a = id /\ hdr_ttl_secs a = ttl mod 2 ^ 16 /\ hdr_flags a = 0.
+Proof. exact ask_frame_proof. Qed.
+Check ask_frame :
+  forall id ttl,
+  length id = ID_SIZE -> ttl < 2 ^ 32 ->
+  let a := ask_allocate id ttl in
+  length a = 36%nat /\ hdr_id a = id /\ hdr_ttl_secs a = ttl mod 2 ^ 16 /\ hdr_flags a = 0.
+Print Assumptions ask_frame.
+
+(** Refinement: on every history the relay (expiry heap, lazy cleanup, stale entries) makes exactly the observations of the heap-less abstract specification [astep] (Proofs/RelaySpec.v) and stays in the corresponding state. *)
+Theorem relay_refines_spec :
+  forall h, trace init h = atrace a_init h /\ abs (exec init h) = aexec a_init h.
+Proof. exact relay_refines_spec_proof. Qed.
+Check relay_refines_spec :
+  forall h, trace init h = atrace a_init h /\ abs (exec init h) = aexec a_init h.
+Print Assumptions relay_refines_spec.
+
+(** At most once, askers only: for every history, connection and id, copies received + copies delivered and not yet drained + registrations still waiting <= asks made by that connection for that id.  Holding after every prefix, this matches each delivery to a distinct earlier ask of the same connection for the same id. *)
+Theorem ask_at_most_once :
+  forall h c id,
+  (count_id id (received c (trace init h)) + count_id id (pending c (exec init h)) + waiting c id (exec init h)
+   <= asks_of c id h)%nat.
+Proof. exact ask_at_most_once_proof. Qed.
+Check ask_at_most_once :
+  forall h c id,
+  (count_id id (received c (trace init h)) + count_id id (pending c (exec init h)) + waiting c id (exec init h)
+   <= asks_of c id h)%nat.
+Print Assumptions ask_at_most_once.
+
+(** No connection ever receives (or has pending) a message with an id it did not ask for. *)
+Theorem never_unasked :
+  forall h c id,
+  asks_of c id h = 0%nat ->
+  count_id id (received c (trace init h)) = 0%nat /\ count_id id (pending c (exec init h)) = 0%nat.
+Proof. exact never_unasked_proof. Qed.
+Check never_unasked :
+  forall h c id,
+  asks_of c id h = 0%nat ->
+  count_id id (received c (trace init h)) = 0%nat /\ count_id id (pending c (exec init h)) = 0%nat.
+Print Assumptions never_unasked.
+
+(** An ask is answered at once if a publication for the id is stored and unexpired (clock < its own expiry): exactly one copy of exactly the stored bytes goes to the asking connection, nothing to anybody else. *)
+Theorem ask_answered_immediately :
+  forall h c a t e m,
+  length a = HDR_SIZE ->
+  lookup (hdr_id a) (msgs (exec init h)) = Some (Ready e m) -> t < e ->
+  let s := exec init h in
+  let s' := fst (step s (OSend c a t)) in
+  snd (step s (OSend c a t)) = [ObsSend true] /\
+  pending c s' = m :: pending c s /\
+  (forall c', c' <> c -> pending c' s' = pending c' s) /\
+  lookup (hdr_id a) (msgs s') = Some (Ready e m).
+Proof. exact ask_answered_immediately_proof. Qed.
+Check ask_answered_immediately :
+  forall h c a t e m,
+  length a = HDR_SIZE ->
+  lookup (hdr_id a) (msgs (exec init h)) = Some (Ready e m) -> t < e ->
+  let s := exec init h in
+  let s' := fst (step s (OSend c a t)) in
+  snd (step s (OSend c a t)) = [ObsSend true] /\
+  pending c s' = m :: pending c s /\
+  (forall c', c' <> c -> pending c' s' = pending c' s) /\
+  lookup (hdr_id a) (msgs s') = Some (Ready e m).
+Print Assumptions ask_answered_immediately.
+
+(** An ask at clock t with TTL ttl that finds no live publication is answered by the first publication under its id at a clock tp < t + ttl (whatever else happens in between, before the ask's expiry): the connection gets n >= 1 copies (one per registration of that connection; exactly one per ask by ask_at_most_once) of exactly the published frame, which is stored with its own expiry. *)
+Theorem ask_answered_when_published :
+  forall h1 c a t h2 o f tp,
+  length a = HDR_SIZE ->
+  (forall e m, lookup (hdr_id a) (msgs (exec init h1)) = Some (Ready e m) -> e <= t) ->
+  times_before (t + hdr_ttl a) h2 ->
+  (forall o', In o' h2 -> ~ publishes (hdr_id a) o') ->
+  is_publish o f tp -> hdr_id f = hdr_id a -> tp < t + hdr_ttl a ->
+  let s := exec init (h1 ++ OSend c a t :: h2) in
+  let s' := fst (step s o) in
+  exists n, (1 <= n)%nat /\ pending c s' = pending c s ++ repeat f n /\
+            lookup (hdr_id a) (msgs s') = Some (Ready (tp + hdr_ttl f) f).
+Proof. exact ask_answered_when_published_proof. Qed.
+Check ask_answered_when_published :
+  forall h1 c a t h2 o f tp,
+  length a = HDR_SIZE ->
+  (forall e m, lookup (hdr_id a) (msgs (exec init h1)) = Some (Ready e m) -> e <= t) ->
+  times_before (t + hdr_ttl a) h2 ->
+  (forall o', In o' h2 -> ~ publishes (hdr_id a) o') ->
+  is_publish o f tp -> hdr_id f = hdr_id a -> tp < t + hdr_ttl a ->
+  let s := exec init (h1 ++ OSend c a t :: h2) in
+  let s' := fst (step s o) in
+  exists n, (1 <= n)%nat /\ pending c s' = pending c s ++ repeat f n /\
+            lookup (hdr_id a) (msgs s') = Some (Ready (tp + hdr_ttl f) f).
+Print Assumptions ask_answered_when_published.
+
+(** A publication that finds no live message under its id (vacant, waiters, or an expired one) is the one that is stored, with its own expiry t + ttl. *)
+Theorem first_publication_stored :
+  forall h o f t,
+  is_publish o f t ->
+  (forall e m, lookup (hdr_id f) (msgs (exec init h)) = Some (Ready e m) -> e <= t) ->
+  lookup (hdr_id f) (msgs (fst (step (exec init h) o))) = Some (Ready (t + hdr_ttl f) f).
+Proof. exact first_publication_stored_proof. Qed.
+Check first_publication_stored :
+  forall h o f t,
+  is_publish o f t ->
+  (forall e m, lookup (hdr_id f) (msgs (exec init h)) = Some (Ready e m) -> e <= t) ->
+  lookup (hdr_id f) (msgs (fst (step (exec init h) o))) = Some (Ready (t + hdr_ttl f) f).
+Print Assumptions first_publication_stored.
+
+(** While a publication m is stored under id (until its own expiry e), the only frame with that id delivered to anybody is m, byte for byte: for every other frame f with that id the number of copies received or pending never grows, whatever is published meanwhile. *)
+Theorem first_publication_wins :
+  forall h1 h2 id e m c f,
+  lookup id (msgs (exec init h1)) = Some (Ready e m) -> times_before e h2 ->
+  hdr_id f = id -> f <> m ->
+  (countp (bytes_eqb f) (received c (trace (exec init h1) h2)) +
+   countp (bytes_eqb f) (pending c (exec init (h1 ++ h2))))%nat
+  = countp (bytes_eqb f) (pending c (exec init h1)).
+Proof. exact first_publication_wins_proof. Qed.
+Check first_publication_wins :
+  forall h1 h2 id e m c f,
+  lookup id (msgs (exec init h1)) = Some (Ready e m) -> times_before e h2 ->
+  hdr_id f = id -> f <> m ->
+  (countp (bytes_eqb f) (received c (trace (exec init h1) h2)) +
+   countp (bytes_eqb f) (pending c (exec init (h1 ++ h2))))%nat
+  = countp (bytes_eqb f) (pending c (exec init h1)).
+Print Assumptions first_publication_wins.
+
+(** A later publication under an id whose stored message is still live changes nothing: the resulting state is the plain cleanup of the previous one, the stored bytes are unchanged, nobody is delivered anything. *)
+Theorem dup_ignored :
+  forall h o f t e m,
+  is_publish o f t ->
+  lookup (hdr_id f) (msgs (exec init h)) = Some (Ready e m) -> t < e ->
+  fst (step (exec init h) o) = cleanup t (exec init h) /\
+  lookup (hdr_id f) (msgs (fst (step (exec init h) o))) = Some (Ready e m) /\
+  (forall c, pending c (fst (step (exec init h) o)) = pending c (exec init h)).
+Proof. exact dup_ignored_proof. Qed.
+Check dup_ignored :
+  forall h o f t e m,
+  is_publish o f t ->
+  lookup (hdr_id f) (msgs (exec init h)) = Some (Ready e m) -> t < e ->
+  fst (step (exec init h) o) = cleanup t (exec init h) /\
+  lookup (hdr_id f) (msgs (fst (step (exec init h) o))) = Some (Ready e m) /\
+  (forall c, pending c (fst (step (exec init h) o)) = pending c (exec init h)).
+Print Assumptions dup_ignored.
+
+(** The expiry stored in the model's [Ready] entries (which the Rust MsgEntry::Ready does not have) is ghost: states differing only there make the same observations and stay equal up to that field. *)
+Theorem ghost_not_read :
+  forall s s' o, ghost_eq s s' ->
+  snd (step s o) = snd (step s' o) /\ ghost_eq (fst (step s o)) (fst (step s' o)).
+Proof. exact ghost_not_read_proof. Qed.
+Check ghost_not_read :
+  forall s s' o, ghost_eq s s' ->
+  snd (step s o) = snd (step s' o) /\ ghost_eq (fst (step s o)) (fst (step s' o)).
+Print Assumptions ghost_not_read.
+
+(** Non-vacuity: a concrete history (ask before publish, two waiters with different TTLs, a duplicate publication, an expiry between ask and publish, expiry of the publication, a short frame) evaluated by the kernel. *)
+Example relay_example_history :
+  trace init ex_history = ex_expected.
+Proof. exact relay_example_history_proof. Qed.
+Check relay_example_history :
+  trace init ex_history = ex_expected.
+Print Assumptions relay_example_history.
+
